@@ -2,3 +2,5 @@ fixed("D12", "C15", "error for self-referential types", "SchemaForType on a self
 open_("c15.named-struct-reused", "C15",
       "a named struct type used at more than one position is defined again at every position instead of being referenced by name (Avro: every named type is defined once); repair needs named-type references in schema generation, the parser and the codec builder; witness: statictypes.HReused{A HInner; B HInner; C []HInner} defines HInner 3 times",
       "findings/D13-named-struct-defined-twice.json", ["c15.named-struct-reused"])
+fixed("D02b", "C13", "honour the position of null", "caller schemas with null second ([T,null]): null was written as the T selector with no value, strings under the null selector (invalid stream)", "findings/D02b-null-second-union-write.json")
+fixed("D11", "C13", "null.Float under a float schema", "null.Float under a float schema wrote the low four bytes of the float64 bit pattern", "findings/D11-nullfloat-under-float.json")
